@@ -30,16 +30,19 @@ theorem decode_protected_validated (enc : Bytes) (m : GoMap) (h : decProtectedCo
       · rename_i kvs _
         cases hl : labelsOK kvs [] with
         | ok u =>
+          simp only [hl, bind, Out.bind] at h
+          split at h
+          · cases h
           cases hd : decodePairs kvs [] with
           | ok m0 =>
-            simp only [hl, hd, bind, Out.bind] at h
+            simp only [hd] at h
             by_cases hv : validateHeaderParameters m0 true = true
             · simp only [hv, Bool.not_true, Bool.false_eq_true, if_false] at h
               cases h; exact ⟨m0, hv, rfl⟩
             · simp [hv] at h
-          | err e => simp [hl, hd, bind, Out.bind] at h
-          | panic => simp [hl, hd, bind, Out.bind] at h
-          | unmodelled => simp [hl, hd, bind, Out.bind] at h
+          | err e => simp [hd] at h
+          | panic => simp [hd] at h
+          | unmodelled => simp [hd] at h
         | err e => simp [hl, bind, Out.bind] at h
         | panic => simp [hl, bind, Out.bind] at h
         | unmodelled => simp [hl, bind, Out.bind] at h
